@@ -51,6 +51,7 @@ EOF
 instr_overlay() {
   local d=$1 mode=$2
   rm -rf "$d/instr-$mode"; mkdir -p "$d/instr-$mode"
+  [ -x "$BUILD/bin/instr" ] || build_tools || return 1
   ( cd "$VERIF/mc" && "$BUILD/bin/instr" -mode "$mode" -dir "$REPO" -out "$d/instr-$mode" \
       -overlay "$d/overlay-gen.json" -add "$VERIF/mc/overlay_add" ./... ) >&2 || return 1
   cp "$d/instr-$mode/overlay.json" "$d/overlay-$mode.json"
